@@ -80,6 +80,13 @@ def word_lookup(t):
 
 def run(ctx):
     R = ctx.R
+    # no hidden state: the functions this property is about (and what they call) do not write module-level state, so a
+    # verdict cannot depend on the history of earlier calls
+    hs = rules.hidden_state(ctx.prog, [ctx.fn(q) for q in (B + "calculate_mnemonic_phrase", B + "to_entropy", B + "to_seed")])
+    R.check("C10.1", "OWN", ctx.fn(B + "to_seed"), "no module-level state is written on these paths (results do not depend on earlier calls)", not hs,
+            "%s %s" % ((hs[0][0].qualname, hs[0][2]) if hs else ("", "")), line=hs[0][1].lineno if hs else None,
+            example="the same call repeated in one process after a call with other arguments / a failed call")
+
     ev = ctx.evaluator(opaque={B + "load_wordlist"})
     fc = ctx.fn(B + "calculate_mnemonic_phrase")
     bad = []
@@ -95,8 +102,8 @@ def run(ctx):
         s = ev.run(fc, {fc.params()[0]: ent})
         kind, val = rules.strict_outcome(s)
         legal = L in (16, 20, 24, 28, 32)
-        if (kind == "return") != legal:
-            bad.append("entropy of %d bytes is %s" % (L, "encoded" if kind == "return" else "refused"))
+        if kind != ("return" if legal else "raise"):
+            bad.append("entropy of %d bytes is %s" % (L, "encoded" if kind == "return" else "refused" if kind == "raise" else "neither encoded nor refused for certain (%s)" % tm.show(val)[:80]))
             continue
         if not legal:
             continue
